@@ -467,7 +467,8 @@ theorem stage_events_eq (cfg : Cfg) (r : Request) : stageEvents (pipeline false 
     runtime and completion order (with the proposed fix of N1 applied): the query, parsing,
     validation and execution hooks are well bracketed (an end hook only ever closes the innermost
     open stage, and every started stage is ended — also when the stage reported errors), each
-    hook fires at most once, and everything lies inside `on_query_start … on_query_end`. -/
+    hook fires at most once, and everything lies inside `on_query_start … on_query_end`.
+    SCOPE (audit round 2): stated for `pipeline false` - since fix N1 that IS /repo's pipeline (`stages_not_nested_before_fix_N1` is the pre-fix one); over `stageEvents` only: that field / middleware / resolver events lie between `execution+` and `execution-` holds by construction of `Instr.execute` and is NOT a theorem - on the real code it is what the oracle checks (`field-hook-outside-execution-stage`), with the known exceptions N4 (thread pool, sibling in flight at abort) and N7. `OutKind` has no unexpected-exception and no request-abort outcome: processing that RAISES leaves stages open on the real code (known finding N3). -/
 theorem stages_nested (cfg : Cfg) (r : Request) :
     bracket [] (stageEvents (pipeline false cfg r)) = true
     ∧ (stageEvents (pipeline false cfg r)).Nodup
@@ -806,7 +807,8 @@ private theorem execSerial_order (cfg : Cfg) : ∀ (fs : List Node) (sched : Lis
     field the events `start hook, middlewares entered (last one first), resolver invoked,
     returned / raised, end hook` (all with its path) occur in this order in the trace. Together
     with `field_hooks_once` (each of them occurs exactly once): the start hook fires before the
-    resolver is invoked and the end hook after it returned or raised, whatever the schedule. -/
+    resolver is invoked and the end hook after it returned or raised, whatever the schedule.
+    NOTE (audit round 2): `order` lists start hook, middleware ENTRIES, call, return, end hook - it omits the middleware EXITS. For a deferred resolver the model (like the code: `apply_middlewares(runtime.wrap_callable(resolver))`) emits `field+ mw>… mw<… call ret field-`: every middleware has exited before the resolver runs (known finding N8, probe `middleware-deferred`); the NESTING `mw> call ret mw<` is proved for synchronous resolvers only (`field_hooks_contiguous_sequential`). -/
 theorem field_hooks_ordered : FieldOrderAllSchedules := by
   intro cfg r n hn
   unfold execBody
